@@ -277,6 +277,18 @@ def main():
         rep.violation("c12:pub-constant-initialiser-not-resolvable-in-importer", {"files": dict(probe), "implementation": pa[:300]})
     else:
         rep.notes.append("known finding F37 no longer reproduces on its probe")
+    # the same leak through the other places where a pub declaration carries an expression or a length of its own module:
+    # an array length in a pub structure or in the type of a pub constant that names a private constant
+    for what, lib, mainsrc in (
+            ("array length of a pub structure member", "const N: usize = 2;\npub struct Q\n{\n\tp: [N]i32,\n}\n",
+             "fn main() -> i32\n{\n\tvar q: Q;\n\treturn: 3\n}\n"),
+            ("array length in the type of a pub constant", "const N: usize = 2;\npub const T: [N]i32 = [1, 2];\n",
+             "fn main() -> i32\n{\n\treturn: T[0] + 2\n}\n")):
+        probe2 = [("lib.pn", lib), ("main.pn", 'import "lib.pn";\n' + mainsrc)]
+        pa2 = run_harness_serial(["alpha\trun\t" + "\t".join(x for nm, src in probe2 for x in (nm, esc(src)))])[0]
+        ph2, pd2 = kv(pa2)
+        if not (ph2 == "ok" and pd2.get("status") == "3"):
+            rep.violation("c12:pub-declaration-names-private-constant-as-length", {"what": what, "files": dict(probe2), "implementation": pa2[:300]})
     # interface matrix: one item of every declaration kind in a leaf module c, pub or not; every acyclic import graph over
     # three modules a, b, c; a and/or b use the item; every file order.  Accepted exactly when every user imports c
     # directly and the item is pub (the Lean expansion model decides), and then it behaves like the single-file program.
@@ -286,9 +298,13 @@ def main():
         "const": ("const", "%sconst X: i32 = 7;\n", "X"),
         "struct": ("struct", "%sstruct X\n{\n\tv: i32,\n}\n", None),
         "word": ("struct", "%sword32 X\n{\n\tv: i32,\n}\n", None),
+        # an opaque structure can only be named behind a pointer
+        "opaque": ("struct", "%sstruct X;\n", "opaque"),
     }
     def user(fname, pubkw, kind):
         use = KINDS[kind][2]
+        if use == "opaque":
+            return "fn takes_%s(p: &X)\n{\n}\n%sfn %s() -> i32\n{\n\treturn: 7\n}\n" % (fname, pubkw, fname)
         if use is None:
             return "%sfn %s() -> i32\n{\n\tvar s = X { v: 7 };\n\treturn: s.v\n}\n" % (pubkw, fname)
         return "%sfn %s() -> i32\n{\n\treturn: %s\n}\n" % (pubkw, fname, use)
@@ -406,7 +422,7 @@ def main():
                 "direct imports, run in every file order (<= 6 orders) and compared with the single-file program's output; the "
                 "same partition with one needed `pub` removed / one needed import removed must be rejected with E401/E402/E405 "
                 "exactly when the Lean expansion model says a reference no longer resolves; interface matrix: an item of every "
-                "declaration kind (fn, extern head, const, struct, word), pub or private, in a leaf module x every acyclic import "
+                "declaration kind (fn, extern head, const, struct, word, opaque struct), pub or private, in a leaf module x every acyclic import "
                 "graph over three modules x users x all 6 file orders: accepted exactly when the model says every user sees it, "
                 "and then exit status as in one file; two leaf modules that never meet with a pub constant of the same name, "
                 "all 24 file orders; sequences of unrelated modules "
